@@ -27,7 +27,8 @@ ASSUMPTIONS = [
     "documented potentials (docs/hessian.md): LJ 4 eps[(sigma/r)^12-(sigma/r)^6]; IPL A eps (sigma/r)^n; Hertz "
     "eps/alpha (1-r/sigma)^alpha on r < sigma with r_c = sigma (where s'(r_c) = 0 for alpha > 1, as documented)",
     "domain: r, sigma, r_c, epsilon, A > 0; n in the enumerated set (integers and non-integers, int- and float-typed); "
-    "alpha in {2, 2.5, 3} (thorough also 2.2, 3.5, 4; alpha >= 2 so that s'' is finite up to r = sigma); python floats",
+    "alpha in {2, 2.5, 3} (thorough also 2.2, 3.5, 4; alpha >= 2 so that s'' is finite up to r = sigma); python floats; "
+    "for integer alpha the documented s(r) is a polynomial, so nodes with r > sigma are included there (non-integer alpha: r < sigma only)",
     "identity in (r, r_c, sigma, epsilon, A) for every enumerated exponent follows from the Cartesian grid ONLY together "
     "with the structural walk over the source (generalised-polynomial class, term count T per variable <= nodes per "
     "variable); the dependence on n / alpha is a bounded claim (enumerated values only)",
@@ -62,6 +63,7 @@ def alpha(tier):
     else:
         a["x"] = sorted(set([round(0.8 + 0.0175 * i, 6) for i in range(98)] + [1.0, 2.5]))
         a["xh"] = [round(0.05 + 0.02 * i, 6) for i in range(47)] + [0.98, 0.995]
+    a["xh_beyond"] = [1.05, 1.2, 1.5] if q else [1.02, 1.05, 1.1, 1.2, 1.35, 1.5, 1.8]  # Hertz, integer alpha only: r > sigma
     a["y"] = [1.48, 2.0, 2.5] if q else [1.12, 1.48, 2.0, 2.5, 3.0]
     a["sigma"] = [0.7, 1.0, 1.4] if q else [0.7, 0.88, 1.0, 1.2, 1.4]
     a["eps"] = [0.5, 1.0, 2.0] if q else [0.2, 0.5, 1.0, 1.5, 2.0]
@@ -85,7 +87,11 @@ def gen_model(model, via):
                     yield {"model": "ipl", "via": "direct_default_A", "sigma": sg, "eps": ep, "y": y, "shift": sh, "n": n, "A": A, "x": a["x"][::3]}
         else:
             for al, sg, ep, sh in itertools.product(a["alpha"], a["sigma"], a["eps"], a["shift"]):
-                yield {"model": "hertz", "via": via, "sigma": sg, "eps": ep, "y": 1.0, "shift": sh, "alpha": al, "x": a["xh"]}
+                xs = list(a["xh"])
+                if float(al).is_integer():
+                    # integer exponent: the documented s(r) is a polynomial in r, real on both sides of sigma
+                    xs = xs + a["xh_beyond"]
+                yield {"model": "hertz", "via": via, "sigma": sg, "eps": ep, "y": 1.0, "shift": sh, "alpha": al, "x": xs}
     return gen
 
 
@@ -172,6 +178,103 @@ def run(case):
     return R
 
 
+# ------------------------------------------------------------------------------------------ call sequences (E2)
+SEQ_BASE = {"x": 1.1, "eps": 1.0, "sigma": 1.0, "y": 2.5, "shift": True, "n": 10, "A": 1.0, "alpha": 3}
+SEQ_DEV = {"x": [1.3], "eps": [1.5], "sigma": [1.2], "y": [2.0], "shift": [False], "n": [12], "A": [2.5], "alpha": [2]}
+SEQ_FIELDS = {"lj": ["x", "eps", "sigma", "y", "shift"], "ipl": ["x", "eps", "sigma", "y", "shift", "n", "A"],
+              "hertz": ["x", "eps", "sigma", "shift", "alpha"]}
+
+
+def seq_points(model):
+    """the base parameter tuple and every tuple that departs from it in exactly one coordinate"""
+    pts = [dict(SEQ_BASE)]
+    for f in SEQ_FIELDS[model]:
+        for v in SEQ_DEV[f]:
+            pts.append(dict(SEQ_BASE, **{f: v}))
+    return pts
+
+
+def gen_sequence(tier, seed):
+    depth = 2 if tier == "quick" else 3
+    for m in pairpot.MODELS:
+        pts = seq_points(m)
+        for via in ("direct", "caller"):
+            for L in range(1, depth + 1):
+                for word in itertools.product(range(len(pts)), repeat=L):
+                    yield {"model": m, "via": via, "word": list(word)}
+
+
+def _seq_eval(case):
+    """runs in a forked child: the calls of the word, in order, in a process where no PairInteractions call happened before"""
+    m = case["model"]
+    pts = seq_points(m)
+    out = []
+    for k in case["word"]:
+        p = pts[k]
+        c = {"model": m, "via": case["via"], "sigma": p["sigma"], "eps": p["eps"], "shift": p["shift"], "n": p["n"], "A": p["A"], "alpha": p["alpha"]}
+        y = 1.0 if m == "hertz" else p["y"]
+        x = 0.8 * p["x"] / 1.1 if m == "hertz" else p["x"]
+        got = call(c, x * p["sigma"], y * p["sigma"])
+        out.append([complex(v).real if not isinstance(v, complex) or v.imag == 0 else None for v in got])
+    return out
+
+
+def run_sequence(case):
+    import json
+    import os
+
+    R = Result()
+    m = case["model"]
+    pts = seq_points(m)
+    rd, wr = os.pipe()
+    pid = os.fork()
+    if pid == 0:  # child: fresh copy of a worker that never called the library's pair functions
+        try:
+            os.close(rd)
+            try:
+                payload = {"ok": _seq_eval(case)}
+            except BaseException as e:  # noqa: BLE001
+                payload = {"err": f"{type(e).__name__}: {e}"}
+            os.write(wr, json.dumps(payload).encode())
+        finally:
+            os._exit(0)
+    os.close(wr)
+    buf = b""
+    while True:
+        ch = os.read(rd, 65536)
+        if not ch:
+            break
+        buf += ch
+    os.close(rd)
+    os.waitpid(pid, 0)
+    payload = json.loads(buf.decode()) if buf else {"err": "child died"}
+    feat = {"model": m, "via": case["via"], "clause": "sequence"}
+    if "err" in payload:
+        R.fail(f"call sequence {case['word']} raised {payload['err']}", sig=dict(feat, exception=True))
+        return R
+    states = set()
+    for pos, (k, got) in enumerate(zip(case["word"], payload["ok"])):
+        p = pts[k]
+        y = 1.0 if m == "hertz" else p["y"]
+        x = 0.8 * p["x"] / 1.1 if m == "hertz" else p["x"]
+        exp = pairpot.triple(m, x * p["sigma"], p["eps"], p["sigma"], y * p["sigma"], p["shift"], n=p["n"], A=p["A"], alpha=p["alpha"])
+        if not p["shift"]:
+            exp[1] = 0.0
+        states.add((k, tuple(got)))
+        bad = [i for i in range(3) if got[i] is None or not (abs(got[i] - exp[i]) <= ATOL + RTOL * abs(exp[i]))]
+        if bad:
+            changed = sorted(f for f in SEQ_FIELDS[m] if pos > 0 and pts[case["word"][pos - 1]][f] != p[f])
+            R.fail(f"{m} via {case['via']}: call #{pos + 1} of the sequence {[pts[i] for i in case['word']]} returned {got}, "
+                   f"derivatives of the documented potential are {exp} (entries {bad} wrong)",
+                   sig=dict(feat, position="first" if pos == 0 else "later", changed=changed), exp=exp, obs=got)
+            break
+    R.elem = 3 * len(case["word"])
+    R.states = len(states)
+    R.transitions = len(case["word"])
+    R.outcome(payload["ok"])
+    return R
+
+
 # ------------------------------------------------------------------------------------------ wiring
 def claim(model, tier):
     """text + dict describing which identity the completed grid decides for this model"""
@@ -206,4 +309,12 @@ def subs(tier, seed):
                    rule="the same grids through caller(InteractionParams) with decoy values in the fields of the other models: result equals "
                         "the requested model's method (bitwise) and the hyper-dual reference",
                    bounds={"decoys": DECOY}))
+    sq = Sub("C12.sequence", gen_sequence, run_sequence,
+             rule="explicit-state search over CALL SEQUENCES: all words of length <= " + ("2" if tier == "quick" else "3")
+                  + " over the base parameter tuple and all its single-coordinate departures (r, epsilon, sigma, r_c, shift, n, A, alpha), "
+                  "per model, direct and via caller; every word runs in a forked child in which no pair function was called before; "
+                  "every call of the word must return the derivatives of the documented potential for ITS OWN parameters "
+                  "(a result memoised under an incomplete key, or any other state carried between calls, shows up in the second call)",
+             bounds={"depth": 2 if tier == "quick" else 3, "points": {m: len(seq_points(m)) for m in pairpot.MODELS}})
+    out.append(sq)
     return out
